@@ -5,6 +5,7 @@ package main
 // definitions (one define-fun per hash-consed term, emitted once).
 
 import (
+	"os"
 	"bufio"
 	"fmt"
 	"io"
@@ -347,6 +348,8 @@ type SolverStats struct {
 	Disagree int
 }
 
+var slowLog = os.Getenv("GOSYM_SLOWLOG") != ""
+
 type Portfolio struct {
 	ctx       *Ctx
 	timeoutMs int
@@ -393,6 +396,7 @@ func (p *Portfolio) collect() {
 // in --crosscheck mode).
 func (p *Portfolio) Check(asserts []*Term, wantVars []*Term, assertion bool) (Result, Model) {
 	p.stats.Queries++
+	t0 := time.Now()
 	heavy := false
 	for _, a := range asserts {
 		if a.heavy {
@@ -438,6 +442,12 @@ func (p *Portfolio) Check(asserts []*Term, wantVars []*Term, assertion bool) (Re
 	}
 	if why != "" {
 		p.lastErr = why
+	}
+	if slowLog && time.Since(t0) > 5*time.Second {
+		fmt.Fprintf(os.Stderr, "SLOW query %.1fs res=%v heavy=%v nasserts=%d last=%s\n", time.Since(t0).Seconds(), res, heavy, len(asserts), asserts[len(asserts)-1].String())
+		for _, a := range asserts {
+			fmt.Fprintf(os.Stderr, "    %s\n", a.String())
+		}
 	}
 	if p.crosschk && assertion && res != Unknown {
 		if len(p.cross) == 0 {
